@@ -117,7 +117,7 @@ int main(int argc, char **argv) {
       for (int64_t c : d.zeros) if (c >= 0 && c < d.cells) I.setCell(d.id, c * d.e.esz, d.e.fp ? cfpAV(0, d.e.esz) : AV::Int(0, d.e.esz), d.e.esz);
     }
     // ---- stages
-    json::Array stageReports; bool anyMonitor = false; int monitoredStages = 0; bool abortedAsExpected = false;
+    json::Array stageReports; bool anyMonitor = false; int monitoredStages = 0; bool abortedAsExpected = false; int notApplicable = 0;
     if (setupErrors.empty() && stages) for (auto &sv : *stages) {
       const json::Object &st = *sv.getAsObject(); Function *Fn = findFn(st);
       if (!Fn || Fn->isDeclaration()) { setupErrors.push_back("function " + jstr(st, "fn") + " not found in module " + jstr(st, "mod", "wit")); break; }
@@ -236,6 +236,18 @@ int main(int argc, char **argv) {
           for (auto &nv : *need) { int s = TT.sym(nit->second, *nv.getAsInteger()); if (!sy.count(s)) missing += TT.str(s) + " "; }
           if (!missing.empty()) { r.v = V_VIOLATION; r.how = "syntactic dependence misses required inputs"; r.got = "missing: " + missing; }
           report(r, da.name, c, cellSrc(da, c));
+        } else if (kind == "contains") { // the value stored in one cell must be computed from the value stored in another (sub-DAG of the raw term)
+          auto ia = regIx.find(jstr(o, "region")), ib = regIx.find(jstr(o, "sub_region", jstr(o, "region")));
+          if (ia == regIx.end() || ib == regIx.end()) { setupErrors.push_back("contains: unknown region"); continue; }
+          std::string onlyIf = jstr(o, "only_if_func"); bool applicable = onlyIf.empty();
+          if (!applicable) for (int id : I.fnTouched) if (I.fnNames[id].find(onlyIf) != std::string::npos) applicable = true;
+          if (!applicable) { notApplicable++; continue; }
+          RegionDecl &da = regs[ia->second], &db = regs[ib->second]; int64_t c = jint(o, "cell"), sc = jint(o, "sub_cell");
+          int t = cellTerm(da, c), sub = cellTerm(db, sc); bool found = false; std::set<int> seen; std::vector<int> st{t};
+          while (!st.empty() && !found) { int u = st.back(); st.pop_back(); if (!seen.insert(u).second) continue; if (u == sub) { found = true; break; } const Term &x = TT.t[u]; if (x.op == TT.OP_SYM || x.op == TT.OP_PTR) continue; for (int a : x.a) st.push_back(a); }
+          CmpResult r; if (TT.t[sub].op == TT.OP_C || TT.t[sub].op == TT.OP_CF) found = true; // a constant carries no dependence to demand
+          if (!found) { r.v = V_VIOLATION; r.how = jstr(o, "why", "the cell is not computed from the required earlier result"); r.got = TT.str(t, 4); r.expected = "a term containing " + TT.str(sub, 3); }
+          report(r, da.name, c, cellSrc(da, c));
         } else if (kind == "independent") { // the cell's term must not mention the given symbols (claimed only for linear / copy forms)
           auto ia = regIx.find(jstr(o, "region")); if (ia == regIx.end()) { setupErrors.push_back("independent: unknown region"); continue; }
           RegionDecl &da = regs[ia->second]; int64_t c = jint(o, "cell"); std::string ns = jstr(o, "ns"); auto nit = TT.nsix.find(ns); const json::Array *no = o.getArray("cells");
@@ -270,6 +282,7 @@ int main(int argc, char **argv) {
     out["steps"] = (int64_t)I.steps; out["terms"] = (int64_t)TT.t.size(); out["merges"] = (int64_t)I.merges; out["symbolic_branches"] = (int64_t)I.symbolicBranches; out["masked_ops"] = (int64_t)I.masked; out["ptr_order_by_layout"] = (int64_t)I.layoutAssumed;
     out["how"] = json::Object{{"identical_or_canonical", (int64_t)cmp.nCanon}, {"polynomial", (int64_t)cmp.nPoly}, {"case_split", (int64_t)cmp.nSplit}, {"minmax", (int64_t)cmp.nMinmax}, {"refuted", (int64_t)cmp.nRefuted}, {"undecided", (int64_t)cmp.nUndecided}, {"atoms", (int64_t)cmp.N.atoms}, {"nan_guards_resolved", (int64_t)cmp.N.nanGuards}, {"max_poly", (int64_t)cmp.N.maxsize}};
     { json::Array fa; for (int id : I.fnTouched) fa.push_back(I.fnNames[id]); out["funcs"] = std::move(fa); }
+    out["obligations_not_applicable"] = notApplicable;
     { json::Array ia; for (auto &s : I.intrinsicsSeen) ia.push_back(s); out["x86"] = std::move(ia); }
     { json::Array ca; for (auto &s : I.calleesSeen) ca.push_back(s); out["callees"] = std::move(ca); }
     if (!I.abnormal.empty()) { json::Array aa; for (auto &s : I.abnormal) aa.push_back(s); out["abnormal"] = std::move(aa); }
